@@ -366,6 +366,35 @@ func (ks *c14Keys) get(kind, sc int, kseed []byte) (*c14Key, error) {
 }
 
 // c14Fingerprint: deterministic bytes describing a returned key (trace only).
+// c14Consistent: the public part of a returned EC private key is [d]G on its curve ("" if so, or not an EC key).
+func c14Consistent(got any) string {
+	chk := func(cv elliptic.Curve, d, x, y *big.Int) string {
+		if cv == nil || d == nil || x == nil || y == nil {
+			return "missing field"
+		}
+		dm := new(big.Int).Mod(d, cv.Params().N)
+		if dm.Sign() == 0 {
+			return ""
+		}
+		wx, wy := cv.ScalarBaseMult(dm.Bytes())
+		if wx.Cmp(x) != 0 || wy.Cmp(y) != 0 {
+			return fmt.Sprintf("public point (%x.., %x..) is not [d]G (%x.., %x..)", trunc(x.Bytes(), 6), trunc(y.Bytes(), 6), trunc(wx.Bytes(), 6), trunc(wy.Bytes(), 6))
+		}
+		return ""
+	}
+	switch g := got.(type) {
+	case *sm2.PrivateKey:
+		if g != nil {
+			return chk(g.Curve, g.D, g.X, g.Y)
+		}
+	case *ecdsa.PrivateKey:
+		if g != nil {
+			return chk(g.Curve, g.D, g.X, g.Y)
+		}
+	}
+	return ""
+}
+
 func c14Fingerprint(got any) []byte {
 	switch g := got.(type) {
 	case *sm2.PrivateKey:
